@@ -25,6 +25,7 @@ func runC12(c *Ctx) {
 	if c.Thorough {
 		nh = 20
 	}
+	laggingCounters(c, "C12")
 	for h := 0; h < nh; h++ {
 		c12Mutids(c, h)
 		c12Labels(c, h)
